@@ -293,5 +293,25 @@ func fixedHarmless() []mutant {
 		{Harmless: true, ID: "h-r10-C19-fixed", Patch: "seeded/C19j-build-faiss-index-helper/fixed.diff"},
 		{Harmless: true, ID: "h-r10-C19-fixed-vectors", Patch: "seeded/C19j-build-faiss-index-helper/fixed.diff", Vectors: true},
 		{Harmless: true, ID: "h-r10-C20-fixed", Patch: "seeded/C20j-narrow-lock-clear-in-close/fixed.diff"},
+		// the repaired forms of the round-11 seeds (C08k, C14k: unresolved alarms, C19k: the feature itself breaks C19 — not fixtures)
+		{Harmless: true, ID: "h-r11-C01-fixed", Patch: "seeded/C01k-feat-build-onehit-fastpath/fixed.diff"},
+		{Harmless: true, ID: "h-r11-C02-fixed", Patch: "seeded/C02k-fix-stored-bounds-check-geq/fixed.diff"},
+		{Harmless: true, ID: "h-r11-C03-fixed", Patch: "seeded/C03k-feat-docvalues-bytecopy/fixed.diff"},
+		{Harmless: true, ID: "h-r11-C04-fixed", Patch: "seeded/C04k-fix-validate-footer-chunksize-zero/fixed.diff"},
+		{Harmless: true, ID: "h-r11-C05-fixed", Patch: "seeded/C05k-feat-fieldssame-ignores-dead-segments/fixed.diff"},
+		{Harmless: true, ID: "h-r11-C06-fixed", Patch: "seeded/C06k-feat-fieldssame-ignores-dead-segments/fixed.diff"},
+		{Harmless: true, ID: "h-r11-C07-fixed", Patch: "seeded/C07k-feat-advance-chunk-jump/fixed.diff"},
+		{Harmless: true, ID: "h-r11-C09-fixed", Patch: "seeded/C09k-feat-docvalues-bytecopy/fixed.diff"},
+		{Harmless: true, ID: "h-r11-C10-fixed", Patch: "seeded/C10k-feat-validate-then-pool-without-reset/fixed.diff"},
+		{Harmless: true, ID: "h-r11-C11-fixed", Patch: "seeded/C11k-feat-stored-memo-before-early-return/fixed.diff"},
+		{Harmless: true, ID: "h-r11-C12-fixed", Patch: "seeded/C12k-feat-except-max-shortcut/fixed.diff"},
+		{Harmless: true, ID: "h-r11-C13-fixed", Patch: "seeded/C13k-feat-synid-remap-per-segment/fixed.diff"},
+		{Harmless: true, ID: "h-r11-C15-fixed", Patch: "seeded/C15k-feat-merge-address-after-write/fixed.diff"},
+		{Harmless: true, ID: "h-r11-C15-fixed-vectors", Patch: "seeded/C15k-feat-merge-address-after-write/fixed.diff", Vectors: true},
+		{Harmless: true, ID: "h-r11-C16-fixed", Patch: "seeded/C16k-feat-all-excluded-early-return/fixed.diff"},
+		{Harmless: true, ID: "h-r11-C16-fixed-vectors", Patch: "seeded/C16k-feat-all-excluded-early-return/fixed.diff", Vectors: true},
+		{Harmless: true, ID: "h-r11-C17-fixed", Patch: "seeded/C17k-feat-lone-segment-copy-shadowed-err/fixed.diff"},
+		{Harmless: true, ID: "h-r11-C18-fixed", Patch: "seeded/C18k-feat-lone-segment-copy-before-poll/fixed.diff"},
+		{Harmless: true, ID: "h-r11-C20-fixed", Patch: "seeded/C20k-fix-idempotent-close-flag/fixed.diff"},
 	}
 }
